@@ -149,6 +149,24 @@ def main(scale):
         attempt('h%d take-reorder' % h, lambda: repr(a.take(list(a.objects)[::-1][:3], None, reorder=True)))
         attempt('h%d inverted' % h, lambda: repr(~a))
         attempt('h%d transposed' % h, lambda: repr(-a))
+    # sparse definitions: many empty rows / columns, few survivors
+    for h in range(8 * scale):
+        no, npr = rng.randint(6, 12), rng.randint(6, 12)
+        objs = rng.sample(WORDS, no)
+        props = rng.sample(PWORDS, npr)
+        keep_o = rng.sample(range(no), rng.randint(2, 3))
+        keep_p = rng.sample(range(npr), rng.randint(2, 3))
+        bools = [[(i in keep_o and j in keep_p and rng.random() < .8) for j in range(npr)] for i in range(no)]
+        for i in keep_o:
+            bools[i][keep_p[0]] = True
+        for j in keep_p:
+            bools[keep_o[0]][j] = True
+        d = Definition(objs, props, bools)
+        emit('MODEL s%d' % h, defs.dnew_line(0, d.objects, d.properties, d.bools) + '\tok ' + defs.state(d))
+        for op in (('remove_empty_objects',), ('remove_empty_properties',)):
+            res = defs.apply_op(d, op, {})
+            emit('MODEL s%d' % h, defs.op_line(0, op) + '\t' + 'ok %s %s' % (defs.ret_str(res[1]), defs.state(d)))
+        emit('s%d table' % h, d.tostring())
     sys.stdout.write('\n'.join(OUT) + '\n')
 
 
